@@ -47,6 +47,10 @@ func (self ValueObject) DisplayFlat() (string, *VmInterrupt) {
 }
 
 func (self ValueObject) IsEqual(other Value) (bool, *VmInterrupt) {
+	// values of different kinds are never equal (mixed kinds occur inside any-objects)
+	if other.Kind() != self.Kind() {
+		return false, nil
+	}
 	otherObj := other.(ValueObject)
 
 	for key, value := range self.FieldsInternal {
